@@ -309,7 +309,7 @@ class FullAndWatchOnlyHistories:
 
 def execute(case):
     k = case.get("k")
-    if "hist" in case and case.get("layer") == "full-and-watch-only-histories":
+    if "hist" in case and case.get("layer", "").startswith("full-and-watch-only-histories"):
         r = isolated(FullAndWatchOnlyHistories().run, case["hist"])
         for v in r["viols"]:
             v["case"] = case
@@ -362,4 +362,9 @@ def run(ctx):
     agg = ctx.product("refusals-and-object-graph", cases, execute, chunk=1)
     bfs(ctx, "requests-on-one-watch-only-wallet", WatchOnlyHistories(), 3 if ctx.thorough else 2, chunk=2)
     bfs(ctx, "full-and-watch-only-histories", FullAndWatchOnlyHistories(), 3 if ctx.thorough else 2, chunk=2)
+    from ..bfs import long_histories
+    long_histories(ctx, "requests-on-one-watch-only-wallet+long", WatchOnlyHistories(), rotations=9 if ctx.thorough else 3, rounds=2)
+    from ..bfs import eviction_probe
+    eviction_probe(ctx, "requests-on-one-watch-only-wallet+revisits", WatchOnlyHistories(), lambda i: "M/0/%d" % i, sizes=(1, 2, 3, 4, 5, 8, 9, 16, 17, 20, 21, 32, 33))
+    long_histories(ctx, "full-and-watch-only-histories+long", FullAndWatchOnlyHistories(), rotations=10 if ctx.thorough else 3, rounds=2)
     return {"export_wallets": n, "object_graph_strings_scanned": sum(agg["x"]), "subpath_alphabet": alpha}
